@@ -63,7 +63,7 @@ func loadProgram(dir string) (*Program, error) {
 	if len(errs) > 0 {
 		return nil, fmt.Errorf("load errors: %s", strings.Join(errs, "; "))
 	}
-	prog, spkgs := ssautil.AllPackages(pkgs, ssa.InstantiateGenerics)
+	prog, spkgs := ssautil.AllPackages(pkgs, ssa.InstantiateGenerics|ssa.GlobalDebug)
 	prog.Build()
 	P := &Program{RepoDir: dir, Pkgs: pkgs, Prog: prog, Funcs: map[string]*ssa.Function{}}
 	for i, p := range pkgs {
